@@ -51,8 +51,8 @@ func runC19(c *Ctx) {
 	}
 
 	// ---- C19.1
-	c.Rule("C19.1", "every buildMsg call in package server passes the TransactionID field of the request message in hand", 9)
-	c.Rule("C19.3", "the stun.NewType(method, class) passed to buildMsg uses the handler's dispatch method (a constant equal to the method getMessageHandler dispatches this handler for), the callingMethod parameter in authenticateRequest (whose callers are checked by C03.2), or the request message's own method in the dispatcher", 9)
+	c.Rule("C19.1", "every buildMsg call in package server passes the TransactionID field of the request message in hand", 8)
+	c.Rule("C19.3", "the stun.NewType(method, class) passed to buildMsg uses the handler's dispatch method (a constant equal to the method getMessageHandler dispatches this handler for), the callingMethod parameter in authenticateRequest (whose callers are checked by C03.2), or the request message's own method in the dispatcher", 8)
 	dispatch := map[*ssa.Function]int64{}
 	for _, e := range w.dispatchTable() {
 		dispatch[e.handler] = e.method
